@@ -20,6 +20,10 @@ TPL = {
     "print": '$SYM[*][ gt(line_number(), @k) print("at $.csvpath.line_number seen $.csvpath.count_matches") ]',
     "fail": '$SYM[*][ push("s", line_number()) @k.nocontrib == line_number() -> fail() @v = valid() ]',
     "error": '$SYM[*][ push("s", line_number()) @k.nocontrib == line_number() -> mod(1, 0) push("t", line_number()) ]',
+    # mode settings in the comment
+    "no-run": '~ run-mode: no-run ~ $SYM[*][ push("s", line_number()) gt(line_number(), @k) print("p $.csvpath.line_number") ]',
+    "no-matches": '~ return-mode: no-matches ~ $SYM[*][ push("s", line_number()) gt(line_number(), @k) push.onmatch("m", line_number()) ]',
+    "onmatch-reject": '$SYM[*][ push("s", line_number()) gt(line_number(), @k) skip.onmatch(@n == line_number()) push("t", line_number()) ]',
 }
 
 
@@ -47,8 +51,8 @@ def _recs(b1, b3):
     outside="more than 6 records; other templates",
     encodes=["csvpath/csvpath.py:CsvPath.collect/next/fast_forward/_consider_line/finalize", "csvpath/util/line_spooler.py:ListLineSpooler.append"],
     tiers={
-        "quick": {"timeout": 900, "K": {"KLO": -1, "KHI": 6, "NHI": 3}, "shards": product(tpl=[t for t in TPL if t != "advance"], n=[0], b1=[False]) + product(tpl=["advance"], b1=[False])},
-        "thorough": {"timeout": 3000, "K": {"KLO": -2, "KHI": 7, "NHI": 6}, "shards": product(tpl=[t for t in TPL if t != "advance"], n=[0]) + product(tpl=["advance"])},
+        "quick": {"timeout": 900, "K": {"KLO": -1, "KHI": 6, "NHI": 3}, "shards": product(tpl=[t for t in TPL if t not in ("advance", "onmatch-reject")], n=[0], b1=[False]) + product(tpl=["advance", "onmatch-reject"], b1=[False])},
+        "thorough": {"timeout": 3000, "K": {"KLO": -2, "KHI": 7, "NHI": 6}, "shards": product(tpl=[t for t in TPL if t not in ("advance", "onmatch-reject")], n=[0]) + product(tpl=["advance", "onmatch-reject"])},
     },
 )
 def three_ways(tpl: str, k: int, n: int, b1: bool, b3: bool) -> bool:
@@ -69,37 +73,48 @@ def three_ways(tpl: str, k: int, n: int, b1: bool, b3: bool) -> bool:
     return l1 == l2 and s1 == s2 and s2 == s3
 
 
-NEXTS_TPL = '$SYM[*][ push("s", line_number()) gt(line_number(), @k) push.onmatch("m", line_number()) ]'
+NEXTS_TPL = {
+    "plain": '$SYM[*][ push("s", line_number()) gt(line_number(), @k) push.onmatch("m", line_number()) ]',
+    "no-matches": '~ return-mode: no-matches ~ $SYM[*][ push("s", line_number()) gt(line_number(), @k) push.onmatch("m", line_number()) ]',
+    "onmatch-reject": '$SYM[*][ push("s", line_number()) gt(line_number(), @k) push.onmatch("m", line_number()) skip.onmatch(@j == line_number()) ]',
+}
 
 
-def nexts_oracle(k, n, b1, b3):
+def nexts_oracle(mode, k, j, n, b1, b3):
     blanks = [False, b1, False, b3, False, False]
     lines = [i for i in range(NREC) if not blanks[i]]
-    matched = [i for i in lines if i > k]
-    if n > len(matched):
+    matched = [i for i in lines if i > k]  # lines on which the onmatch push happens
+    if mode == "no-matches":
+        returned = [i for i in lines if not i > k]
+    elif mode == "onmatch-reject":
+        returned = [i for i in matched if i != j]  # skip.onmatch rejects line j after the line had matched so far
+    else:
+        returned = matched
+    if n > len(returned):
         cut = NREC
     else:
-        cut = matched[n - 1]
-    return (matched[:n], [i for i in lines if i <= cut], [i for i in matched if i <= cut])
+        cut = returned[n - 1]
+    return (returned[:n], [i for i in lines if i <= cut], [i for i in matched if i <= cut])
 
 
 @ob(
     "C07",
     "O2-collect-nexts",
-    pre=["{KLO} <= k <= {KHI}", "1 <= n <= {NHI}"],
-    post="_ == nexts_oracle(k, n, b1, b3)",
+    pre=["{KLO} <= k <= {KHI}", "1 <= n <= {NHI}", "{KLO} <= j <= {KHI}"],
+    post="_ == nexts_oracle(mode, k, j, n, b1, b3)",
     bound="collect(nexts=n), n symbolic 1..NHI (matches+1 included), threshold k symbolic, 6 stub records with 2 symbolic "
     "blank flags; observed: returned lines, per-line pushes (side effects) of every evaluated line and of matched lines",
     outside="more than 6 records",
     encodes=["csvpath/csvpath.py:CsvPath.collect/next/_consider_line"],
     tiers={
-        "quick": {"timeout": 900, "K": {"KLO": -1, "KHI": 6, "NHI": 7}},
-        "thorough": {"timeout": 3000, "K": {"KLO": -2, "KHI": 7, "NHI": 8}},
+        "quick": {"timeout": 900, "K": {"KLO": -1, "KHI": 6, "NHI": 7}, "shards": product(mode=["plain", "no-matches"], j=[-1]) + product(mode=["onmatch-reject"], b1=[False])},
+        "thorough": {"timeout": 3000, "K": {"KLO": -2, "KHI": 7, "NHI": 8}, "shards": product(mode=["plain", "no-matches"], j=[-1]) + product(mode=["onmatch-reject"])},
     },
 )
-def nexts_cut(k: int, n: int, b1: bool, b3: bool) -> Tuple[List[int], List[int], List[int]]:
+def nexts_cut(mode: str, k: int, j: int, n: int, b1: bool, b3: bool) -> Tuple[List[int], List[int], List[int]]:
     recs = _recs(b1, b3)
-    p, pr = fresh(NEXTS_TPL, recs)
+    p, pr = fresh(NEXTS_TPL[mode], recs)
     p.variables["k"] = k
+    p.variables["j"] = j
     got = [int(l[0]) for l in p.collect(nexts=n)]
     return (got, list(p.variables.get("s", [])), list(p.variables.get("m", [])))
